@@ -221,6 +221,9 @@ impl World {
     pub fn forge(&mut self, kind: u8) -> Vec<usize> {
         let byz = self.byz_ids();
         let Some(&b) = byz.first() else { return vec![] };
+        if kind % 6 >= 4 {
+            return self.forge_stale_timeouts(kind % 6 == 5, b, &byz);
+        }
         let n = self.cfg.spec.n();
         let votes = self.commit_votes();
         // every block some correct node voted for in the newest view with such votes
@@ -278,6 +281,59 @@ impl World {
             let p = self.sign_as(leader, v2::ChonkyMsg::LeaderProposal(v2::LeaderProposal { proposal_payload: payload, justification: just }));
             out.push(self.add_to_pool(p, true));
         }
+        out
+    }
+
+    /// A timeout certificate for the newest view anybody timed out in, padded with *genuine but stale* timeout votes that
+    /// correct validators signed in earlier views (their oldest ones, or their newest ones below the target view), plus fresh
+    /// Byzantine votes. Replaying old votes needs no forged signature; only the per-vote view check stops it.
+    fn forge_stale_timeouts(&mut self, newest: bool, b: usize, byz: &[usize]) -> Vec<usize> {
+        let votes = self.timeout_votes();
+        let Some(&target) = votes.keys().max() else { return vec![] };
+        let n = self.cfg.spec.n();
+        let mut map: std::collections::BTreeMap<v2::ReplicaTimeout, v2::Signers> = Default::default();
+        let mut agg = validator::AggregateSignature::default();
+        let mut add = |m: &validator::Signed<v2::ReplicaTimeout>, who: usize, map: &mut std::collections::BTreeMap<v2::ReplicaTimeout, v2::Signers>, agg: &mut validator::AggregateSignature| {
+            let e = map.entry(m.msg.clone()).or_insert_with(|| v2::Signers(bit_vec::BitVec::from_elem(n, false)));
+            e.0.set(who, true);
+            agg.add(&m.sig);
+        };
+        let mut stale = 0;
+        for who in 0..n {
+            if self.cfg.byz[who] {
+                let t = v2::ReplicaTimeout { view: self.committee.view(target), high_vote: None, high_qc: None };
+                let m = self.sign_as(who, v2::ChonkyMsg::ReplicaTimeout(t.clone()));
+                let ConsensusMsg::V2(v2::ChonkyMsg::ReplicaTimeout(_)) = &m.msg else { continue };
+                let signed = validator::Signed { msg: t, key: m.key.clone(), sig: m.sig.clone() };
+                add(&signed, who, &mut map, &mut agg);
+                continue;
+            }
+            // this validator's own votes, oldest or newest-below-target first; its genuine vote for the target view is used if there is no other
+            let mut mine: Vec<(u64, validator::Signed<v2::ReplicaTimeout>)> = votes.iter().filter_map(|(v, s)| s.get(&who).map(|m| (*v, m.clone()))).collect();
+            mine.sort_by_key(|(v, _)| *v);
+            let pick = if newest { mine.iter().rev().find(|(v, _)| *v < target).or(mine.last()) } else { mine.first() };
+            if let Some((v, m)) = pick {
+                if *v != target {
+                    stale += 1;
+                }
+                add(m, who, &mut map, &mut agg);
+            }
+        }
+        if stale == 0 {
+            return vec![];
+        }
+        let just = v2::ProposalJustification::Timeout(v2::TimeoutQC { view: self.committee.view(target), map, signature: agg });
+        let mut out = vec![];
+        let nv = self.sign_as(b, v2::ChonkyMsg::ReplicaNewView(v2::ReplicaNewView { justification: just.clone() }));
+        out.push(self.add_to_pool(nv, true));
+        let leader = self.leader(just_view(&just));
+        if self.cfg.byz[leader] {
+            let (number, forced) = just.get_implied_block(&self.committee.schedule, self.first_block());
+            let payload = forced.is_none().then(|| Payload(vec![0xF1, number.0 as u8]));
+            let p = self.sign_as(leader, v2::ChonkyMsg::LeaderProposal(v2::LeaderProposal { proposal_payload: payload, justification: just }));
+            out.push(self.add_to_pool(p, true));
+        }
+        let _ = byz;
         out
     }
 
